@@ -39,7 +39,14 @@ Top == stk[Len(stk)]
 InArgs == Top.k \in {"call", "envcall"} /\ Len(Top.args) < Len(Top.sig)
 Slot == Top.sig[Len(Top.args) + 1]
 CanContent == ~InArgs /\ Top.k # "call"
-InMath == \E i \in 1..Len(stk) : stk[i].k = "math" \/ (stk[i].k \in {"env", "envcall"} /\ stk[i].bodykind = "math")
+(* frames that fix the mode of what is written inside them: formulas, math environments, and braced arguments  *)
+(* of a slot with a declared mode (\text{..} inside a formula is text again; feature "textinmath")              *)
+ModeFrames == { i \in 1..Len(stk) : \/ stk[i].k = "math"
+                                    \/ (stk[i].k \in {"env", "envcall"} /\ stk[i].bodykind = "math")
+                                    \/ ("textinmath" \in Features /\ stk[i].k = "arggroup" /\ stk[i].bodykind \in {"text", "math"}) }
+InMath == IF ModeFrames = {} THEN FALSE
+          ELSE LET i == CHOOSE k \in ModeFrames : \A m \in ModeFrames : m <= k IN
+               ~(stk[i].k = "arggroup" /\ stk[i].bodykind = "text")
 InDiscard == \E i \in 1..Len(stk) : stk[i].k \in {"call", "env", "envcall"} /\ stk[i].name \in DiscardMacros
 AddChild(c) == [stk EXCEPT ![Len(stk)].body = Append(@, c)]
 Letter(c) == c \in (65..90) \cup (97..122)
@@ -151,7 +158,7 @@ VerbEnv(e, text) == /\ e[3] = "legacyverb" /\ CanContent /\ ~InMath
 (* ---- argument slots ------------------------------------------------------------------------ *)
 NoSpaceBefore == ~Slot.pre => last # "space"
 ArgGroupOpen == /\ InArgs /\ Slot.k = "m"
-                /\ Write(<<123>>, Append(stk, F("arggroup", <<>>, <<>>, <<123, 125>>, "")), "sym") /\ UNCHANGED mk
+                /\ Write(<<123>>, Append(stk, F("arggroup", <<>>, <<>>, <<123, 125>>, Slot.delta)), "sym") /\ UNCHANGED mk
 ArgTok == /\ "argtoken" \in Features /\ InArgs /\ Slot.k = "m"
           /\ \/ Write(<<97>>, PutArg(<< N("chars", <<97>>, <<>>, <<>>, <<>>) >>), "text")
              \/ \E z \in ArglessMacros :
